@@ -404,7 +404,7 @@ def shuffled(items, rng):
 def out_of_subset(gen, rng):
     """One grammar-valid specification using a construct outside the supported subset.  Returns (items, tag)."""
     items, meta = gen.supported(ndecl=2 + rng.below(3))
-    c = rng.below(16)
+    c = rng.below(17)
     tag = ""
     s = {"k": "struct", "name": gen.fresh("s"), "fields": [{"ty": "int", "name": "a", "arr": None, "opt": False}]}
     if c == 0:
@@ -491,6 +491,23 @@ def out_of_subset(gen, rng):
         items.append({"k": "union", "name": gen.fresh("u"), "swty": "int", "swvar": "d", "arms": [{"labels": ["1", "2"], "body": None}]})
         items.append({"k": "enum", "name": gen.fresh("en"), "members": [[gen.fresh("M"), rng.choice(["2147483648", "4294967296", "99999999999999999999", "007"])]]})
         items.append({"k": "typedef", "ty": "int", "name": gen.fresh("t"), "arr": ["var", rng.choice(["4294967296", "0", "00"])]})
+    elif c == 15:
+        tag = "hex-constant-as-bound"
+        # a constant written in hex (in range, at and above 2^31, wider than 32 bits, malformed) used as a length or a bound, in every
+        # bounded position: the emitter parses the constant's text itself
+        k = gen.fresh("K")
+        items.append({"k": "const", "name": k, "val": rng.choice(["0x10", "0x7fffffff", "0x80000000", "0xffffffff", "0x100000000",
+                                                                  "0xfffffffffffffffff", "0x1G", "0x", "0xG"])})
+        form = rng.below(4)
+        if form == 0:
+            s["fields"].append({"ty": rng.choice(["int", "opaque", s["name"]]), "name": "xs", "arr": ["fixed", k], "opt": False})
+        elif form == 1:
+            s["fields"].append({"ty": rng.choice(["string", "opaque", s["name"]]), "name": "xs", "arr": ["var", k], "opt": False})
+        elif form == 2:
+            items.append({"k": "typedef", "ty": rng.choice(["opaque", s["name"]]), "name": gen.fresh("t"), "arr": ["var", k]})
+        else:
+            items.append({"k": "typedef", "ty": rng.choice(["opaque", "int", s["name"]]), "name": gen.fresh("t"), "arr": ["fixed", k]})
+        items.append(s)
     else:
         tag = "var-array-of-primitive"
         s["fields"].append({"ty": rng.choice(["int", "uint32_t", "string"]), "name": "xs", "arr": ["var", ""], "opt": False})
